@@ -73,8 +73,8 @@ class AbstractDeme(ABC):
 
     @property
     def centroid(self) -> np.ndarray:
-        if self._centroid is None:
-            self._centroid = compute_centroid(self.current_population)
+        # Not cached: the population changes with every metaepoch and a stale centroid misleads the sprout filters.
+        self._centroid = compute_centroid(self.current_population)
         return self._centroid
 
     @property
